@@ -137,7 +137,7 @@ def shape(rng, big=False, min_items=0):
     return items, frames
 
 
-def block(rng, kind, big=False, min_items=0, fmix=None, masks=None, fmt=None):
+def block(rng, kind, big=False, min_items=0, fmix=None, masks=None, fmt=None, huge_cell=False):
     """Random valid canonical content of the given kind.
     masks: optional list of masks to use for the segmented tracks (C05 stratification)."""
     fmix = fmix or rng.choice(("ordinary", "mixed", "mixed", "special", "bits"))
@@ -200,6 +200,10 @@ def block(rng, kind, big=False, min_items=0, fmix=None, masks=None, fmt=None):
                 k = rng.choice((0, 0, 1, 2, 3, 5))
                 row.append(None if k == 0 else f32s(rng, 2 * k, fmix))
             cells.append(row)
+        if huge_cell and cells and cells[0]:
+            # one camera sees >= 8192 points in one frame (the on-disk count is a u16: valid up to 65535)
+            k = rng.choice((8192, 8193, 9000, 20000))
+            cells[rng.randrange(nFr)][rng.randrange(nC)] = f32s(rng, 2 * k, "ordinary")
         return {"t": kind, "fmt": 2, "nCams": nC, "nFrames": nFr, "freq": freq, "start": st,
                 "flags": rng.randint(0, 1), "camMap": channels(rng, nC), "cells": cells}
     if kind == "calib":
